@@ -57,11 +57,11 @@ def tlc_mc(module, cfg, work, workers=4, timeout=1500, simulate=None, want_repla
                 wall=round(time.time() - t0, 1), replays=replays, untaken=untaken, tail=out[-1500:])
 
 
-def apalache_ind(work, cinit, expect_ok):
+def apalache_ind(work, cinit, expect_ok, mod='FramerAbs'):
     """Inductive-invariant check of spec/apalache/FramerAbs.tla (unbounded message length, real PMAX):
     Init => IndInv and IndInv /\\ Next => IndInv'.  Returns dict like tlc_mc."""
-    out_dir = os.path.join(work, 'apalache_' + cinit)
-    spec = os.path.join(R.SPEC, 'apalache', 'FramerAbs.tla')
+    out_dir = os.path.join(work, 'apalache_' + mod + '_' + cinit)
+    spec = os.path.join(R.SPEC, 'apalache', mod + '.tla')
     t0 = time.time()
     res = []
     for init, length in (('Init', 0), ('IndInit', 1)):
@@ -69,20 +69,20 @@ def apalache_ind(work, cinit, expect_ok):
             r = subprocess.run(['apalache-mc', 'check', '--cinit=' + cinit, '--init=' + init, '--inv=IndInv', '--length=%d' % length,
                                 '--out-dir=' + out_dir, spec], cwd=work, stdout=subprocess.PIPE, stderr=subprocess.STDOUT, text=True, timeout=900)
         except subprocess.TimeoutExpired:
-            raise R.ToolError('apalache timed out on FramerAbs (' + cinit + ')')
+            raise R.ToolError('apalache timed out on ' + mod + ' (' + cinit + ')')
         ok = 'EXITCODE: OK' in r.stdout
         viol = 'violated' in r.stdout
         if not ok and not viol:
-            raise R.ToolError('apalache failed on FramerAbs (%s):\n%s' % (cinit, r.stdout[-1500:]))
+            raise R.ToolError('apalache failed on %s (%s):\n%s' % (mod, cinit, r.stdout[-1500:]))
         res.append(ok)
     import shutil
     shutil.rmtree(out_dir, ignore_errors=True)
     allok = all(res)
     if expect_ok and not allok:
-        raise R.ToolError('FramerAbs: the inductive invariant does not hold for the framer design')
+        raise R.ToolError(mod + ': the inductive invariant does not hold for the design')
     if not expect_ok and allok:
-        raise R.ToolError('FramerAbs: deviation %s did not break the inductive invariant (vacuous?)' % cinit)
-    return dict(name='FramerAbs/' + cinit + ' (Apalache, inductive)', module='FramerAbs', distinct=0, generated=0, wall=round(time.time() - t0, 1),
+        raise R.ToolError('%s: deviation %s did not break the inductive invariant (vacuous?)' % (mod, cinit))
+    return dict(name=mod + '/' + cinit + ' (Apalache, inductive)', module=mod, distinct=0, generated=0, wall=round(time.time() - t0, 1),
                 expect='pass' if expect_ok else 'fail', obligations=2, discharged=sum(1 for x in res if x))
 
 
@@ -309,6 +309,9 @@ def run_models(pid, tier, work, jobs, rng):
         if pid == 'C04':
             apal = [ex.submit(apalache_ind, work, 'ConstInit', True), ex.submit(apalache_ind, work, 'ConstInitHdr', False),
                     ex.submit(apalache_ind, work, 'ConstInitNoCloser', False)]
+        if pid == 'C01':
+            apal = [ex.submit(apalache_ind, work, 'ConstInit', True, 'ReaderAbs'), ex.submit(apalache_ind, work, 'ConstInitNoDrain', False, 'ReaderAbs'),
+                    ex.submit(apalache_ind, work, 'ConstInitStale', False, 'ReaderAbs')]
         for f in apal:
             info['models'].append(f.result())
         for expect, f in futs:
